@@ -4,6 +4,7 @@ compares what it records with the specification (RFC 4253 7.1: first entry of th
 direction which the server's list for that direction contains; I_C / I_S recorded verbatim).
 Runs under /venv/bin/python with PYTHONPATH=<repo under analysis>; prints a JSON list of violating inputs."""
 import asyncio
+from collections import OrderedDict
 import json
 import random
 import sys
@@ -24,6 +25,16 @@ def main(seed, n):
     MAC = [b'hmac-sha2-256', b'hmac-sha1', b'hmac-sha2-512-etm@openssh.com', b'hmac-sha2-256-etm@openssh.com']
     CMP = [b'none', b'zlib@openssh.com', b'zlib']
     KEX = [b'curve25519-sha256', b'diffie-hellman-group14-sha256', b'ecdh-sha2-nistp256']
+    HK = [b'ssh-ed25519', b'rsa-sha2-512', b'rsa-sha2-256', b'ssh-rsa', b'ecdsa-sha2-nistp256']
+
+    class DummyKeyPair:
+        """stands for SSHKeyPair: remembers which signature algorithm it was told to use"""
+        def __init__(self, alg):
+            self.algorithm = alg
+            self.sig_algorithm = alg
+
+        def set_sig_algorithm(self, alg):
+            self.sig_algorithm = alg
 
     class DummyKex:
         def __init__(self, alg):
@@ -47,20 +58,28 @@ def main(seed, n):
         client = bool(case % 2)
         cls = C.SSHClientConnection if client else C.SSHServerConnection
         conn = object.__new__(cls)
-        ours = {'kex': sub(KEX), 'enc': sub(ENC), 'mac': sub(MAC), 'cmp': sub(CMP)}
+        ours = {'kex': sub(KEX), 'enc': sub(ENC), 'mac': sub(MAC), 'cmp': sub(CMP), 'hk': sub(HK)}
         peer = {'kex': sub(KEX), 'enc_cs': sub(ENC), 'enc_sc': sub(ENC), 'mac_cs': sub(MAC), 'mac_sc': sub(MAC),
-                'cmp_cs': sub(CMP), 'cmp_sc': sub(CMP)}
+                'cmp_cs': sub(CMP), 'cmp_sc': sub(CMP), 'hk': sub(HK)}
+        # the server's host key table, in key load order (independent of any preference order); an RSA key is
+        # registered under several signature algorithms, like the real table
+        table = OrderedDict()
+        rsa_pair = DummyKeyPair(b'ssh-rsa')
+        for a in ours['hk']:
+            table[a] = rsa_pair if (a.startswith(b'rsa-') or a == b'ssh-rsa') else DummyKeyPair(a)
         for f, v in dict(_kex=None, _session_id=b'x', _strict_kex=False, _recv_encryption=None, _recv_seq=0,
                          _kexinit_sent=True, _gss=None, _gss_kex=False, _kex_algs=ours['kex'],
-                         _server_host_key_algs=[b'ssh-ed25519'], _enc_algs=ours['enc'], _mac_algs=ours['mac'],
+                         _server_host_key_algs=list(ours['hk']), _enc_algs=ours['enc'], _mac_algs=ours['mac'],
                          _cmp_algs=ours['cmp'], _client_kexinit=b'OWN-C', _server_kexinit=b'OWN-S',
                          _can_send_ext_info=False, _ignore_first_kex=False, _logger=NullLogger(),
                          _server=not client).items():
             object.__setattr__(conn, f, v)
         if not client:
-            object.__setattr__(conn, 'choose_server_host_key', lambda algs: True)
+            # the REAL SSHServerConnection.choose_server_host_key runs
+            object.__setattr__(conn, '_server_host_keys', table)
+            object.__setattr__(conn, '_server_host_key', None)
         payload = b''.join((Byte(20), bytes(rnd.randrange(256) for _ in range(16)), NameList(peer['kex']),
-                            NameList([b'ssh-ed25519']), NameList(peer['enc_cs']), NameList(peer['enc_sc']),
+                            NameList(peer['hk']), NameList(peer['enc_cs']), NameList(peer['enc_sc']),
                             NameList(peer['mac_cs']), NameList(peer['mac_sc']), NameList(peer['cmp_cs']),
                             NameList(peer['cmp_sc']), NameList([]), NameList([]), Boolean(False), UInt32(0)))
         pkt = SSHPacket(payload)
@@ -73,6 +92,11 @@ def main(seed, n):
             exp['enc_' + d] = first_common(*pair(ours['enc'], peer['enc_' + d]))
             exp['cmp_' + d] = first_common(*pair(ours['cmp'], peer['cmp_' + d]))
         exp_fail = any(v is None for v in exp.values())
+        exp_hk = None
+        if not client:
+            # RFC 4253 7.1: first algorithm on the CLIENT's list that the server has a key for
+            exp_hk = first_common(peer['hk'], list(table))
+            exp_fail = exp_fail or exp_hk is None
         for d in ('cs', 'sc'):
             e = exp['enc_' + d]
             if e is not None:
@@ -108,6 +132,13 @@ def main(seed, n):
             diffs['peer_kexinit'] = (peer_field.hex()[:40], 'the payload')
         if own_field != (b'OWN-C' if client else b'OWN-S'):
             diffs['own_kexinit'] = (own_field.hex()[:40], 'unchanged')
+        if not client:
+            kp = conn._server_host_key
+            if kp is not table[exp_hk]:
+                diffs['host_key'] = ('key registered under ' + ','.join(a.decode() for a, v in table.items() if v is kp),
+                                     'key registered under ' + exp_hk.decode())
+            elif kp.sig_algorithm != exp_hk:
+                diffs['host_key_sig_alg'] = (kp.sig_algorithm.decode(), exp_hk.decode())
         if diffs:
             bad.append(dict(desc, problem='recorded (got, expected): ' + json.dumps(diffs)))
     print(json.dumps({'cases': n, 'violations': bad[:5]}))
